@@ -221,15 +221,23 @@ def evaluate(ctx, jobs):
     # heavy shards (large frames) first
     tasks.sort(key=lambda t: -sum(len(t[0]["terms"][i]) for i in t[2]) - (10 ** 6 if t[0]["name"] == "wt" else 0))
 
+    times = []
+
     def work(t):
+        import time
         j, k, idxs = t
-        return j, eval_shard(ctx, "c11_" + j["label"].replace("-", "_"), k, j["terms"], idxs,
+        t0 = time.time()
+        try:
+            return j, eval_shard(ctx, "c11_" + j["label"].replace("-", "_"), k, j["terms"], idxs,
                              "oracle_" + j["name"], "agree_" + j["name"])
+        finally:
+            times.append((round(time.time() - t0, 1), "%s/%d" % (j["label"], k)))
 
     with cf.ThreadPoolExecutor(max_workers=int(os.environ.get("VERIF_JOBS", "8"))) as ex:
         for j, (o, a) in ex.map(work, tasks):
             j["bad_o"].extend(o)
             j["bad_a"].extend(a)
+    ctx.note("%d shards; slowest: %s" % (len(tasks), sorted(times, reverse=True)[:8]))
     for j in jobs:
         name, label, rows = j["name"], j["label"], j["rows"]
         what = SUITES[name][2]
@@ -271,23 +279,23 @@ def run(ctx):
     jobs = []
     t0 = time.time()
     collect(ctx, vh, jobs, "b64", ["-n", 150 if q else 6000], shard=350 if q else 1000)
-    collect(ctx, vh, jobs, "pkt", ["-n", 60 if q else 3000] + ([] if q else ["-thorough"]), shard=60 if q else 400)
+    collect(ctx, vh, jobs, "pkt", ["-n", 60 if q else 3000] + ([] if q else ["-thorough"]), shard=40 if q else 400)
     collect(ctx, vh, jobs, "dec", ["-n", 300 if q else 12000, "-ex", 3 if q else 5], shard=600 if q else 2500)
     collect(ctx, vh, jobs, "pay", ["-n", 60 if q else 3000], shard=31 if q else 400)
     collect(ctx, vh, jobs, "paydec", ["-n", 150 if q else 6000], shard=200 if q else 1000)
-    collect(ctx, vh, jobs, "wt", ["-n", 60 if q else 1500] + ([] if q else ["-thorough"]), shard=10 if q else 40)
+    collect(ctx, vh, jobs, "wt", ["-n", 60 if q else 1500] + ([] if q else ["-thorough"]), shard=5 if q else 40)
     collect(ctx, vh, jobs, "wtdec", ["-n", 200 if q else 8000], shard=260 if q else 1200)
     if q:
         # every length around the form boundaries + a stride over the rest
         collect(ctx, vh, jobs, "wtlen", ["-lo", 0, "-hi", 300, "-stride", 1], shard=300, label="wtlen-low")
-        collect(ctx, vh, jobs, "wtlen", ["-lo", 65400, "-hi", 65700, "-stride", 1], shard=300, label="wtlen-boundary")
+        collect(ctx, vh, jobs, "wtlen", ["-lo", 65436, "-hi", 65636, "-stride", 1], shard=140, label="wtlen-boundary")
         collect(ctx, vh, jobs, "wtlen", ["-lo", 301, "-hi", 70000, "-stride", 263], shard=300, label="wtlen-stride")
         # large frames: both sides of every size at which the chunked reader changes regime
-        collect(ctx, vh, jobs, "wtlen", ["-growth", "-hi", 1100000], shard=12, label="wtlen-growth")
+        collect(ctx, vh, jobs, "wtlen", ["-growth", "-hi", 1100000], shard=7, label="wtlen-growth")
     else:
         collect(ctx, vh, jobs, "wtlen", ["-lo", 0, "-hi", 70000, "-stride", 1], shard=5000, label="wtlen-all")
-        collect(ctx, vh, jobs, "wtlen", ["-growth", "-hi", 4300000], shard=8, label="wtlen-growth")
-        collect(ctx, vh, jobs, "wtlen", ["-lo", 70001, "-hi", 2200000, "-stride", 1021], shard=40, label="wtlen-sweep")
+        collect(ctx, vh, jobs, "wtlen", ["-growth", "-thorough", "-hi", 4300000], shard=8, label="wtlen-growth")
+        collect(ctx, vh, jobs, "wtlen", ["-lo", 70001, "-hi", 2200000, "-stride", 4093], shard=12, label="wtlen-sweep")
     t1 = time.time()
     evaluate(ctx, jobs)
     ctx.note("harness %.1fs, kernel evaluation of %d cases in %.1fs" % (t1 - t0, sum(len(j["rows"]) for j in jobs), time.time() - t1))
